@@ -526,6 +526,24 @@ class Check(PropCheck):
             return ('tree', 'round trip changed the tree: %r -> %r (html=%r)' % (t1, t2, html))
         if (p.doctype or None) != (p2.doctype or None):
             return ('doctype', 'doctype %r -> %r' % (p.doctype, p2.doctype))
+        # anchor outside the library: the attributes of the re-parsed tree are those the case asked for (independent intake
+        # reference of C02: lower-case names, invalid names dropped, last duplicate wins, class as a word list, style as a
+        # name -> value mapping) — a round trip that is merely self-consistent (both trees wrong alike) shows here
+        from . import c02
+
+        def wanted(blocks):
+            for b in blocks:
+                if b[0] == 'e':
+                    yield b
+                    for x in wanted(b[4]):
+                        yield x
+        want_els = list(wanted(d['blocks']))
+        got_els = [e for e in all_elements(r2) if e.tagName != WRAPPER]
+        if len(want_els) == len(got_els):
+            for w, e in zip(want_els, got_els):
+                if not c02.attrs_match(c02.spec_attrs([tuple(a) for a in w[2]]), e.getAttributesList(), loose_bool=True):
+                    return ('attributes', 'after the round trip <%s> lists %r, the document was built with %r'
+                            % (e.tagName, e.getAttributesList(), w[2]))
         html2 = p2.getHTML()
         if multi_dt:
             html, html2 = strip_after_doctype(html), strip_after_doctype(html2)
